@@ -114,12 +114,20 @@ def check(prop, tier, seed, replay, t0):
     nsh = V.NCPU
     for i in range(nsh):
         jobs.append({"cmd": [binary, "c07", "-tier", tier, "-shard", str(i), "-nshards", str(nsh), "-budget", str(budget)], "name": "bfs_%d" % i})
-    for i in range(nsh):
-        jobs.append({"cmd": [binary, "explore", "-prop", "C07", "-scenario", "c07.wakeup-race", "-tier", tier, "-shard", str(i), "-nshards", str(nsh), "-budget", str(budget)], "name": "wake_%d" % i})
-    r = subprocess.run([binary, "selftest", "-scenario", "c07.wakeup-race"], capture_output=True, text=True, timeout=300)
-    if r.returncode != 0:
-        V.log(r.stdout[-2000:] + r.stderr[-2000:])
-        raise V.HarnessError("determinism self-test failed for c07.wakeup-race")
+    # every schedule-exploration scenario registered for C07 (the wake-up race; window updates vs cancelled receives)
+    names = subprocess.run([binary, "list", "C07"], capture_output=True, text=True).stdout.split()
+    if "c07.wakeup-race" not in names:
+        raise V.HarnessError("scenario c07.wakeup-race is not registered")
+    for n in names:
+        r = subprocess.run([binary, "selftest", "-scenario", n], capture_output=True, text=True, timeout=300)
+        if r.returncode != 0:
+            V.log(r.stdout[-2000:] + r.stderr[-2000:])
+            raise V.HarnessError("determinism self-test failed for " + n)
+        for i in range(nsh):
+            jobs.append({"cmd": [binary, "explore", "-prop", "C07", "-scenario", n, "-tier", tier, "-shard", str(i), "-nshards", str(nsh), "-budget", str(budget)], "name": "%s_%d" % (n, i)})
+        if thorough:
+            for i in range(nsh):
+                jobs.append({"cmd": [binary, "explore", "-fine", "-prop", "C07", "-scenario", n, "-tier", "quick", "-shard", str(i), "-nshards", str(nsh), "-budget", str(budget // 4)], "name": "%s_fine_%d" % (n, i)})
     results, failures = V.run_jobs(jobs, work, budget * 3 + 120)
     merged = V.merge(results)
     # TLC + conformance
